@@ -33,7 +33,12 @@ inline const char* model_name(int m) { static const char* n[] = {"atom", "dimer"
 
 struct Params { double U[3], eps[3], t[2], J, h; };
 
-inline Params params(int model, long mp) {
+// near_degenerate_ok = false maps the corners that put level splittings near pomerol's own 1e-8 resonance tolerance back to
+// generic parameters: there the library's result is ill-conditioned by design (a term is 'resonant' or not depending on the
+// last digits), so two DIFFERENT computations of the same quantity - an alias and a directly constructed component - may
+// legitimately differ; oracles that compare different computations (C13) must not be fed such models. Differential oracles
+// that compare the SAME computation on different rank counts (C06) can, and should.
+inline Params params(int model, long mp, bool near_degenerate_ok = true) {
     hc::Rng r((uint64_t)mp * 2654435761ULL + model);
     Params p;
     auto g = [&](int lo, int hi) { return r.range(lo, hi) / 8.0; }; // eighths
@@ -42,7 +47,7 @@ inline Params params(int model, long mp) {
     p.J = g(1, 4); p.h = g(1, 5);
     if (mp == 0) { for (int i = 0; i < 3; i++) { p.U[i] = 1.0; p.eps[i] = -0.5; } p.t[0] = p.t[1] = -1.0; p.J = 0.25; p.h = 0.25; } // the textbook half-filled case
     // special corners of parameter space (exact and near degeneracies are where tolerance-based term merging gets interesting)
-    switch (mp % 16) {
+    switch ((!near_degenerate_ok && (mp % 16 == 3 || mp % 16 == 4)) ? 15 : mp % 16) {
         case 1: p.U[1] = p.U[2] = p.U[0]; p.eps[1] = p.eps[2] = p.eps[0]; break;          // identical sites: exact degeneracies between blocks
         case 2: p.U[0] = p.U[1] = p.U[2] = 0; break;                                        // non-interacting
         case 3: p.t[0] = p.t[1] = std::pow(10.0, -(5 + (int)((mp / 16) % 6))); break;       // almost decoupled sites: level splittings of 1e-5 .. 1e-10
@@ -72,8 +77,8 @@ struct Stage0 {
 #endif
     }
 
-    Stage0(int model_, long mp, bool nosym) : model(model_ % N_MODELS) {
-        Params p = params(model, mp);
+    Stage0(int model_, long mp, bool nosym, bool near_degenerate_ok = true) : model(model_ % N_MODELS) {
+        Params p = params(model, mp, near_degenerate_ok);
         switch (model) {
             case ATOM: case ATOM_FIELD:
                 L.addSite(new Lattice::Site("A", 1, 2));
